@@ -14,10 +14,13 @@ if not brief:
 for f in sorted(os.listdir(cdir)):
     if f.startswith("shard_") and f.endswith(".v"):
         txt = open(cdir + "/" + f).read()
-        m = re.search(r"^Definition c%d : case := (.*)\.$" % cid, txt, re.M)
+        m = re.search(r"^Definition c%d : (v?case) := (.*)\.$" % cid, txt, re.M)
         if m:
             hdr = txt.split("Definition c")[0]
-            v = hdr + "\nDefinition cc : case := %s.\n" % m.group(1)
+            if m.group(1) == "vcase":
+                v = hdr + "\nDefinition cv : vcase := %s.\nDefinition cc : LuaCases.case := match cv with VLua c => c | VProg b _ o => CProg b o | VVm _ _ => CProg [] (Outcome [] (OOk [])) end.\n" % m.group(2)
+            else:
+                v = hdr + "\nDefinition cc : case := %s.\n" % m.group(2)
             v += "Fixpoint fd {A} (eq : A -> A -> bool) (a b : list A) (i : Z) : Z := match a, b with x :: a', y :: b' => if eq x y then fd eq a' b' (i+1)%Z else i | [], [] => (-1)%Z | _, _ => i end.\n"
             v += "Definition dd := Eval vm_compute in (match run_case no_devs cc with (Outcome t' f', Outcome t f) => (fd (list_eqb oval_eqb) t t' 0%Z, ofin_eqb f f') | (_, Outcome _ _) => ((-2)%Z, false) | _ => ((-3)%Z, false) end).\nPrint dd.\n"
             v += "Definition oo := Eval vm_compute in (fst (run_case no_devs cc)).\nPrint oo.\n"
